@@ -10,33 +10,54 @@
 (* Values: all fields zero ("z"), or all non-zero ("n") except at most one field that is zero/nil    *)
 (* ("z") or empty-but-not-nil ("e"): nil at each pointer / interface / slice / map position.         *)
 EXTENDS Integers, Sequences, FiniteSets, TLC, Json
-CONSTANTS HotKinds, HotTags, NbrSet, MaxFields, EmbKinds, TwoVariant, NameMenu, NbrDistinct
+CONSTANTS HotKinds, HotTags, NbrSet, MaxFields, EmbKinds, TwoVariant, NameMenu, NbrDistinct,
+          DeepBases, MaxDepth, EmbGraph, DeepAll
 
 VARIABLES fs
 \* neighbour menus (a configuration file cannot hold records)
 Nbr == IF NbrSet = "quick" THEN {[k |-> "int", t |-> ""], [k |-> "string", t |-> "nmoe"]}
        ELSE {[k |-> "int", t |-> ""], [k |-> "string", t |-> "nmoe"], [k |-> "*int", t |-> "oe"], [k |-> "E1", t |-> ""]}
 Names == <<"Aa", "Bb", "Cc", "Dd">>
-EmbName(k) == IF k \in {"E2", "E3", "E4", "R1"} THEN k ELSE IF k = "*P2" THEN "P2" ELSE IF k = "*Q2" THEN "Q2" ELSE "E1"
+EmbName(k) == IF k \in {"E2", "E3", "E4", "R1"} \cup EmbGraph THEN k ELSE IF k = "*P2" THEN "P2" ELSE IF k = "*Q2" THEN "Q2" ELSE "E1"
 Variants(k) == IF k \in TwoVariant THEN {"z", "n"} ELSE {"z", "n", "e"}
 IsNbr(f) == \E x \in Nbr : x.k = f.k /\ x.t = f.t
 \* a name probe (an int field whose name comes from NameMenu: lengths 1..4, all-caps and mixed caps; the three hand-copied
 \* builders each have their own copy of the lower-casing rule) counts as the one hot field of a shape
-Hot(s) == Cardinality({i \in 1..Len(s) : ~IsNbr(s[i]) \/ s[i].n \in NameMenu})
+\* Embedding graphs: the kinds in EmbGraph are named struct types that embed each other (Base embeds Stamp; B1 and C1 embed D0);
+\* a shape may embed SEVERAL of them, in every order: the same type reached along two paths (direct embedding declared first or
+\* last), diamonds (B1; C1), uneven diamonds (B1; D0).  They do not count as the one hot field.
+Hot(s) == Cardinality({i \in 1..Len(s) : (~IsNbr(s[i]) \/ s[i].n \in NameMenu) /\ s[i].k \notin EmbGraph})
+\* Container nesting: DeepPre are the container / pointer prefixes (m = map[string], s = [], p = *, a = [2]; outermost first) put
+\* in front of the struct kinds in DeepBases: every prefix of length <= 2, and for every length 3..MaxDepth the four rotations of
+\* m s p a ... and the four homogeneous ones.
+Cont == <<"m", "s", "p", "a">>
+CycPre(L, st) == [i \in 1..L |-> Cont[((st + i - 2) % 4) + 1]]
+SamePre(L, j) == [i \in 1..L |-> Cont[j]]
+DeepPre == IF DeepAll THEN {<<Cont[i]>> : i \in 1..4} \cup {<<Cont[i], Cont[j]>> : i, j \in 1..4}
+                            \cup UNION {{CycPre(L, st) : st \in 1..4} \cup {SamePre(L, j) : j \in 1..4} : L \in 3..MaxDepth}
+           ELSE UNION {{CycPre(L, st) : st \in {1, 2}} : L \in 1..MaxDepth}      \* quick: two rotations per depth
 ValOK(s) == (\A i \in 1..Len(s) : s[i].v = "z") \/ Cardinality({i \in 1..Len(s) : s[i].v # "n"}) <= 1
 NamesOK(s) == \A i, j \in 1..Len(s) : i # j => s[i].n # s[j].n
 
 Init == fs = <<>>
 Add(k, t, v) == /\ Len(fs) < MaxFields
-                /\ fs' = Append(fs, [n |-> IF k \in EmbKinds THEN EmbName(k) ELSE Names[Len(fs) + 1], k |-> k, t |-> t, v |-> v])
+                /\ fs' = Append(fs, [n |-> IF k \in EmbKinds THEN EmbName(k) ELSE Names[Len(fs) + 1], k |-> k, t |-> t, v |-> v, c |-> <<>>])
+AddDeep(k, pre, v) == /\ Len(fs) < MaxFields
+                      /\ fs' = Append(fs, [n |-> Names[Len(fs) + 1], k |-> k, t |-> "", v |-> v, c |-> pre])
 Probe(n, v) == /\ Len(fs) < MaxFields
-               /\ fs' = Append(fs, [n |-> n, k |-> "int", t |-> "", v |-> v])
+               /\ fs' = Append(fs, [n |-> n, k |-> "int", t |-> "", v |-> v, c |-> <<>>])
 Next == \/ \E n \in NameMenu, v \in {"z", "n"} : Probe(n, v)
+        \/ \E k \in DeepBases, pre \in DeepPre, v \in {"z", "n", "e"} : AddDeep(k, pre, v)
+        \/ \E k \in EmbGraph, v \in {"z", "n", "e"} : Add(k, "", v)
         \/ \E k \in HotKinds, t \in HotTags, v \in {"z", "n", "e"} : v \in Variants(k) /\ (k \in EmbKinds => t = "") /\ Add(k, t, v)
         \/ \E x \in Nbr, v \in {"z", "n", "e"} : v \in Variants(x.k) /\ Add(x.k, x.t, v)
 \* quick tier: the neighbours of a shape are pairwise different menu entries (halves the 3-field shapes)
 NbrOK(s) == ~NbrDistinct \/ \A i, j \in 1..Len(s) : (i # j /\ IsNbr(s[i]) /\ IsNbr(s[j]) /\ s[i].n \notin NameMenu /\ s[j].n \notin NameMenu)
                                                       => (s[i].k # s[j].k \/ s[i].t # s[j].t)
-OK == Hot(fs) <= 1 /\ ValOK(fs) /\ NamesOK(fs) /\ NbrOK(fs)
+\* a shape that embeds graph kinds holds nothing else but plain int members
+GraphOK(s) == (\E i \in 1..Len(s) : s[i].k \in EmbGraph) =>
+              \A j \in 1..Len(s) : s[j].k \in EmbGraph \/ (s[j].k = "int" /\ s[j].t = "" /\ s[j].n \notin NameMenu /\ s[j].c = <<>>)
+DeepOK(s) == \A i \in 1..Len(s) : s[i].c # <<>> => \A j \in 1..Len(s) : j = i \/ (s[j].k = "int" /\ s[j].t = "" /\ s[j].n \notin NameMenu)
+OK == Hot(fs) <= 1 /\ ValOK(fs) /\ NamesOK(fs) /\ NbrOK(fs) /\ GraphOK(fs) /\ DeepOK(fs)
 Emit == OK /\ (fs = <<>> \/ PrintT(<<"CASE", ToJson([f |-> fs])>>))
 =============================================================================
